@@ -32,7 +32,7 @@ REVIEWED = {
     'Session::next_line/overflow/Add:usize': (2, 'position < len (guarded by len > position + 1 resp. has_value)', []),
     'Session::current_line/index/index:Vec[usize]': (1, 'every caller checks has_value() first or runs on a session whose text was just set (>= 1 line, cursor 0)', ['current-line-callers']),
     # --- formatting
-    'formatter::format_number/unwrap-option/unwrap<-Iterator::nth': (2, 'the {:.N} rendering has at least as many characters as the integer part of the separately rounded value (a carry into a new digit needs a fraction, which adds >= 2 characters)', []),
+    'formatter::format_number/unwrap-option/unwrap<-Iterator::nth': (2, 'every position is taken in the rendering it was measured on (in front of its decimal point, or behind it up to its length) and a rendering of an f64 is ASCII, so the position is a valid character index; the witness re-walks the function over symbolic renderings on every run (the earlier argument - two renderings of one number have compatible lengths - was wrong: 1e24 has 25 characters with {} and 24 with {:.0}; repaired in /repo 3def85c)', ['format-positions-own-rendering']),
     'UiTokenCollection::update_tokens/vec-position/drain': (1, 'tokens are sorted and non-overlapping when update_tokens runs (sort() precedes the first call, C17/H3), so the start index found is <= the end index found', []),
     'UiTokenCollection::update_tokens/vec-position/insert': (1, 'insert at the start index of the drained range', []),
     # --- time of day arithmetic
